@@ -14,14 +14,17 @@ import (
 	"github.com/idena-network/idena-go/blockchain/fee"
 	"github.com/idena-network/idena-go/blockchain/types"
 	"github.com/idena-network/idena-go/common"
+	"github.com/idena-network/idena-go/crypto"
 	"github.com/idena-network/idena-go/vm/embedded"
 	"github.com/idena-network/idena-go/vm/env"
+	"github.com/idena-network/idena-go/vm/helpers"
+	"github.com/idena-network/idena-go/vm/wasm/testdata"
 )
 
 // ContractInfo is a contract the history deployed (whether it is live is read from the node's state).
 type ContractInfo struct {
 	Addr   common.Address
-	Kind   string // "timelock" | "multisig"
+	Kind   string // "timelock" | "multisig" | "voting" | "lock" | "rlock" | "wasm-inc" | "wasm-sum"
 	Owner  int    // key index
 	Locked bool   // time lock whose unlock time lies in the far future
 	Voters []int  // multisig: key indexes added so far
@@ -31,6 +34,17 @@ type ContractInfo struct {
 	pendDest common.Address
 	pendAmt  *big.Int
 	pendName string
+	// oracle voting (Kind "voting"): what the history's voters did; locks (Kind "lock" / "rlock"): the voting they watch
+	votes    map[int]*voteRec
+	Voting   *ContractInfo
+	deadline int64       // rlock: deposit deadline (unix)
+	deployTx common.Hash // wasm: the address is taken from the receipt
+}
+
+type voteRec struct {
+	vote     byte
+	salt     []byte
+	revealed bool
 }
 
 // Live: the contract exists in the node's canonical state.
@@ -111,6 +125,8 @@ func (h *History) OfferContractTxs(b int) {
 	if h.R.Intn(3) == 0 {
 		h.offerFailThenSucceed(b)
 	}
+	h.advanceVotings(b)
+	h.wasmAction(b)
 }
 
 // gasUsedBy runs tx (signed by key i with a generous max fee) through the real applyTxOnState on a check state and
@@ -400,5 +416,310 @@ func (h *History) contractAction(b int) {
 		if h.contractTx(i, fmt.Sprint("terminate", b, c.Addr.Hex()), &types.Transaction{Type: types.TerminateContractTx, To: &x, Payload: p}) != nil {
 			h.Stats["contract:terminate"]++
 		}
+	}
+}
+
+// ---------- oracle votings and the locks that watch them ----------
+// The voting reads the block header while it runs: startVoting / prolongVoting store the block SEED, the block number,
+// the epoch and the network size; sendVoteProof / sendVote / finishVoting depend on the block number; terminate and the
+// refundable lock's deposit on the block timestamp.
+
+func (h *History) cval(a common.Address, key string) []byte {
+	return h.N.App.State.GetContractValue(a, []byte(key))
+}
+
+func (h *History) cu64(a common.Address, key string) uint64 {
+	v, _ := helpers.ExtractUInt64(0, h.cval(a, key))
+	return v
+}
+
+func (h *History) cbyte(a common.Address, key string) byte {
+	if d := h.cval(a, key); len(d) > 0 {
+		return d[0]
+	}
+	return 0
+}
+
+func (h *History) callC(i int, c *ContractInfo, b int, method string, amt *big.Int, what string, args ...[]byte) bool {
+	p, _ := attachments.CreateCallContractAttachment(method, args...).ToBytes()
+	x := c.Addr
+	if h.contractTx(i, fmt.Sprint("call", b, method, what, c.Addr.Hex()), &types.Transaction{Type: types.CallContractTx, To: &x, Amount: amt, Payload: p}) != nil {
+		h.Stats["contract:"+c.Kind+"."+method+":"+what]++
+		return true
+	}
+	return false
+}
+
+func (h *History) advanceVotings(b int) {
+	n, r, w := h.N, h.R, h.W
+	fpg := n.App.State.FeePerGas()
+	if common.ZeroOrNil(fpg) || len(w.Keys) < 4 {
+		return
+	}
+	nU := len(w.Keys) - 1
+	user := func() int { return 1 + r.Intn(nU) }
+	minStake := new(big.Int).Mul(fpg, big.NewInt(3000000))
+	reserve := new(big.Int).Mul(fpg, big.NewInt(1000000))
+	rich := func(i int, need *big.Int) bool {
+		return n.App.State.GetBalance(w.Addrs[i]).Cmp(new(big.Int).Add(need, reserve)) > 0
+	}
+	now := n.Chain.Head.Time()
+	next := n.Chain.Head.Height() + 1
+	votings := h.liveContracts("voting")
+	// deploy a voting now and then (at most two live ones)
+	if len(votings) < 2 && r.Intn(6) == 0 {
+		i := user()
+		if rich(i, new(big.Int).Add(minStake, Dna(6000))) {
+			args := [][]byte{[]byte(fmt.Sprint("fact", b)), u64b(uint64(now - 100)), u64b(uint64(3 + r.Intn(5))), u64b(100), {byte(51 + r.Intn(20))}, {1}, u64b(100), Dna(int64(1 + r.Intn(5))).Bytes(), {0}}
+			if r.Intn(3) == 0 { // owner fee with a reward fund
+				args[8] = []byte{byte(1 + r.Intn(20))}
+				args = append(args, Dna(int64(r.Intn(50))).Bytes())
+			}
+			p, _ := attachments.CreateDeployContractAttachment(embedded.OracleVotingContract, nil, nil, args...).ToBytes()
+			if stx := h.contractTx(i, fmt.Sprint("deploy-voting", b), &types.Transaction{Type: types.DeployContractTx, Amount: new(big.Int).Add(minStake, big.NewInt(int64(r.Intn(3)))), Payload: p}); stx != nil {
+				h.Contracts = append(h.Contracts, &ContractInfo{Addr: env.ComputeContractAddr(stx, w.Addrs[i]), Kind: "voting", Owner: i, votes: map[int]*voteRec{}})
+				h.Stats["contract:deploy-voting"]++
+			}
+		}
+	}
+	for _, v := range votings {
+		st := h.cbyte(v.Addr, "state")
+		startBlock, vd := h.cu64(v.Addr, "startBlock"), h.cu64(v.Addr, "votingDuration")
+		switch st {
+		case 0: // pending: the owner's deposit, then anybody starts it
+			dep := new(big.Int).SetBytes(h.cval(v.Addr, "ownerDeposit"))
+			bal := n.App.State.GetBalance(v.Addr)
+			if bal.Cmp(dep) < 0 {
+				need := new(big.Int).Add(new(big.Int).Sub(dep, bal), Dna(int64(r.Intn(30))))
+				if rich(v.Owner, need) {
+					x := v.Addr
+					if h.try(v.Owner, fmt.Sprint("fund-voting", b, x.Hex()), &types.Transaction{Type: types.SendTx, To: &x, Amount: need}) != nil {
+						h.Stats["contract:fund-voting"]++
+					}
+				}
+				if r.Intn(4) == 0 {
+					h.callC(user(), v, b, "startVoting", nil, "early")
+				}
+			} else {
+				h.callC(user(), v, b, "startVoting", nil, "funded")
+			}
+		case 1:
+			dur := next - startBlock
+			cEpoch, _ := helpers.ExtractUInt16(0, h.cval(v.Addr, "epoch"))
+			minPay := new(big.Int).SetBytes(h.cval(v.Addr, "votingMinPayment"))
+			if cEpoch != n.App.State.Epoch() && dur < vd {
+				h.callC(user(), v, b, "prolongVoting", nil, "new-epoch")
+				break
+			}
+			if dur < vd { // secret voting: the validated users send their vote hashes with the payment
+				for i := 1; i <= nU; i++ {
+					if v.votes[i] != nil || !n.App.State.GetIdentityState(w.Addrs[i]).NewbieOrBetter() || r.Intn(2) == 0 {
+						continue
+					}
+					pay := new(big.Int).Add(minPay, Dna(int64(r.Intn(3))))
+					if !rich(i, pay) {
+						continue
+					}
+					rec := &voteRec{vote: byte(r.Intn(3)), salt: []byte{byte(i), byte(b), byte(r.Intn(256))}}
+					hash := crypto.Hash(append(common.ToBytes(rec.vote), rec.salt...))
+					if h.callC(i, v, b, "sendVoteProof", pay, "proof", hash[:]) {
+						v.votes[i] = rec
+					}
+				}
+				if r.Intn(6) == 0 {
+					h.callC(user(), v, b, "sendVoteProof", big.NewInt(1), "underpaid", []byte{1, 2, 3})
+				}
+				if r.Intn(8) == 0 {
+					h.callC(user(), v, b, "finishVoting", nil, "premature")
+				}
+				break
+			}
+			// public voting
+			open, all := 0, 0
+			for i, rec := range v.votes {
+				all++
+				if !rec.revealed {
+					open++
+					if r.Intn(3) != 0 && h.callC(i, v, b, "sendVote", nil, "reveal", []byte{rec.vote}, rec.salt) {
+						rec.revealed = true
+					}
+				}
+			}
+			switch {
+			case all == 0: // nobody voted: no quorum after the secret voting, the voting gets a new seed and start block
+				h.callC(user(), v, b, "prolongVoting", nil, "no-votes")
+			case open == 0:
+				h.callC(user(), v, b, "finishVoting", nil, "all-revealed")
+			case r.Intn(5) == 0:
+				h.callC(user(), v, b, "finishVoting", nil, "some-secret")
+			}
+		default: // finished: cannot be terminated for days; try now and then
+			if r.Intn(10) == 0 {
+				p, _ := attachments.CreateTerminateContractAttachment().ToBytes()
+				x := v.Addr
+				if h.contractTx(user(), fmt.Sprint("terminate-voting", b), &types.Transaction{Type: types.TerminateContractTx, To: &x, Payload: p}) != nil {
+					h.Stats["contract:terminate-voting"]++
+				}
+			}
+		}
+		// locks bound to this voting
+		nl := 0
+		for _, l := range h.Contracts {
+			if l.Voting == v && l.Live(n) {
+				nl++
+			}
+		}
+		if nl < 2 && st < 2 && r.Intn(5) == 0 {
+			i := user()
+			if rich(i, minStake) {
+				succ, failA := w.Addrs[user()].Bytes(), w.Addrs[user()].Bytes()
+				if r.Intn(2) == 0 { // a plain oracle lock
+					p, _ := attachments.CreateDeployContractAttachment(embedded.OracleLockContract, nil, nil, v.Addr.Bytes(), []byte{byte(r.Intn(3))}, succ, failA).ToBytes()
+					if stx := h.contractTx(i, fmt.Sprint("deploy-lock", b), &types.Transaction{Type: types.DeployContractTx, Amount: new(big.Int).Set(minStake), Payload: p}); stx != nil {
+						h.Contracts = append(h.Contracts, &ContractInfo{Addr: env.ComputeContractAddr(stx, w.Addrs[i]), Kind: "lock", Owner: i, Voting: v})
+						h.Stats["contract:deploy-lock"]++
+					}
+				} else { // a refundable one: sometimes without success / fail address (refund path)
+					if r.Intn(3) == 0 {
+						succ, failA = nil, nil
+					}
+					dl := now + int64(60*(5+r.Intn(40)))
+					p, _ := attachments.CreateDeployContractAttachment(embedded.RefundableOracleLockContract, nil, nil, v.Addr.Bytes(), []byte{byte(r.Intn(3))}, succ, failA,
+						u64b(uint64(1+r.Intn(4))), u64b(uint64(dl)), u64b(uint64(r.Intn(3000)))).ToBytes()
+					if stx := h.contractTx(i, fmt.Sprint("deploy-rlock", b), &types.Transaction{Type: types.DeployContractTx, Amount: new(big.Int).Set(minStake), Payload: p}); stx != nil {
+						h.Contracts = append(h.Contracts, &ContractInfo{Addr: env.ComputeContractAddr(stx, w.Addrs[i]), Kind: "rlock", Owner: i, Voting: v, deadline: dl})
+						h.Stats["contract:deploy-rlock"]++
+					}
+				}
+			}
+		}
+	}
+	for _, l := range h.Contracts {
+		if l.Voting == nil || !l.Live(n) {
+			continue
+		}
+		vst := h.cbyte(l.Voting.Addr, "state")
+		vLive := l.Voting.Live(n)
+		switch l.Kind {
+		case "lock":
+			if n.App.State.GetBalance(l.Addr).Sign() == 0 && r.Intn(3) == 0 {
+				i := user()
+				x := l.Addr
+				if rich(i, Dna(300)) && h.try(i, fmt.Sprint("fund-lock", b), &types.Transaction{Type: types.SendTx, To: &x, Amount: Dna(int64(5 + r.Intn(200)))}) != nil {
+					h.Stats["contract:fund-lock"]++
+				}
+			}
+			checked := h.cbyte(l.Addr, "isOracleVotingFinished") == 1
+			switch {
+			case vst == 2 && !checked:
+				h.callC(user(), l, b, "checkOracleVoting", nil, "finished")
+			case checked && n.App.State.GetBalance(l.Addr).Sign() > 0:
+				h.callC(user(), l, b, "push", nil, "checked")
+			case r.Intn(8) == 0:
+				h.callC(user(), l, b, []string{"checkOracleVoting", "push"}[r.Intn(2)], nil, "early")
+			case r.Intn(12) == 0: // refused while the voting exists
+				p, _ := attachments.CreateTerminateContractAttachment(w.Addrs[user()].Bytes()).ToBytes()
+				x := l.Addr
+				if h.contractTx(l.Owner, fmt.Sprint("terminate-lock", b), &types.Transaction{Type: types.TerminateContractTx, To: &x, Payload: p}) != nil {
+					h.Stats["contract:terminate-lock"]++
+				}
+			}
+		case "rlock":
+			lst := h.cbyte(l.Addr, "state")
+			switch {
+			case lst == 0 && now < l.deadline && r.Intn(2) == 0: // deposits (paid calls; a share goes on to the voting)
+				i := user()
+				amt := Dna(int64(1 + r.Intn(60)))
+				if rich(i, amt) {
+					h.callC(i, l, b, "deposit", amt, "open")
+				}
+			case lst == 0 && now >= l.deadline && r.Intn(6) == 0:
+				h.callC(user(), l, b, "deposit", Dna(1), "late")
+			case lst == 0 && (vst == 2 || !vLive):
+				h.callC(user(), l, b, "push", nil, "voting-finished")
+			case lst == 0 && r.Intn(8) == 0:
+				h.callC(user(), l, b, "push", nil, "early")
+			case lst == 3 && n.App.State.GetBalance(l.Addr).Sign() > 0: // unlocked for refund
+				if next >= h.cu64(l.Addr, "refundBlock") {
+					h.callC(user(), l, b, "refund", nil, "due")
+				} else if r.Intn(3) == 0 {
+					h.callC(user(), l, b, "refund", nil, "early")
+				}
+			case lst != 0 && n.App.State.GetBalance(l.Addr).Sign() == 0 && r.Intn(4) == 0:
+				p, _ := attachments.CreateTerminateContractAttachment(w.Addrs[user()].Bytes()).ToBytes()
+				x := l.Addr
+				if h.contractTx(l.Owner, fmt.Sprint("terminate-rlock", b), &types.Transaction{Type: types.TerminateContractTx, To: &x, Payload: p}) != nil {
+					h.Stats["contract:terminate-rlock"]++
+				}
+			}
+		}
+	}
+}
+
+// ---------- wasm (bundled test contracts of vm/wasm/testdata; needs upgrade 11) ----------
+
+func (h *History) wasmAction(b int) {
+	n, r, w := h.N, h.R, h.W
+	fpg := n.App.State.FeePerGas()
+	if common.ZeroOrNil(fpg) || !n.Cfg.Consensus.EnableUpgrade11 || len(w.Keys) < 3 || r.Intn(5) != 0 {
+		return
+	}
+	nU := len(w.Keys) - 1
+	budget := new(big.Int).Mul(fpg, big.NewInt(3000000))
+	var live []*ContractInfo
+	for _, c := range h.Contracts {
+		if c.Kind != "wasm-inc" && c.Kind != "wasm-sum" {
+			continue
+		}
+		if c.Addr == (common.Address{}) {
+			if rc := n.Chain.GetReceipt(c.deployTx); rc != nil && rc.Success {
+				c.Addr = rc.ContractAddress
+			}
+		}
+		if c.Addr != (common.Address{}) && c.Live(n) {
+			live = append(live, c)
+		}
+	}
+	i := 1 + r.Intn(nU)
+	if n.App.State.GetBalance(w.Addrs[i]).Cmp(new(big.Int).Mul(budget, big.NewInt(3))) < 0 {
+		return
+	}
+	if len(live) < 2 && r.Intn(2) == 0 {
+		kind := []string{"wasm-inc", "wasm-sum"}[r.Intn(2)]
+		var code []byte
+		var args [][]byte
+		if kind == "wasm-inc" {
+			code, _ = testdata.IncFunc()
+		} else {
+			code, _ = testdata.SumFunc()
+			a := w.Addrs[i]
+			for _, c := range live {
+				if c.Kind == "wasm-inc" {
+					a = c.Addr
+				}
+			}
+			args = [][]byte{a.Bytes()}
+		}
+		p, _ := attachments.CreateDeployContractAttachment(common.Hash{}, code, []byte{byte(b), byte(b >> 8)}, args...).ToBytes()
+		tx := &types.Transaction{Type: types.DeployContractTx, Amount: Dna(int64(r.Intn(3))), Payload: p, MaxFee: new(big.Int).Add(budget, budget)}
+		if stx := h.try(i, fmt.Sprint("deploy-wasm", b), tx); stx != nil {
+			h.Contracts = append(h.Contracts, &ContractInfo{Kind: kind, Owner: i, deployTx: stx.Hash()})
+			h.Stats["contract:deploy-"+kind]++
+		}
+		return
+	}
+	if len(live) == 0 {
+		return
+	}
+	c := live[r.Intn(len(live))]
+	method, args := "inc", [][]byte{u64b(uint64(r.Intn(100)))}
+	if c.Kind == "wasm-sum" {
+		method, args = "invoke", [][]byte{u64b(uint64(r.Intn(100))), u64b(uint64(r.Intn(100)))}
+	}
+	p, _ := attachments.CreateCallContractAttachment(method, args...).ToBytes()
+	x := c.Addr
+	tx := &types.Transaction{Type: types.CallContractTx, To: &x, Amount: Dna(int64(r.Intn(3))), Payload: p, MaxFee: new(big.Int).Set(budget)}
+	if h.try(i, fmt.Sprint("call-wasm", b, x.Hex()), tx) != nil {
+		h.Stats["contract:"+c.Kind+"."+method]++
 	}
 }
